@@ -955,7 +955,7 @@ Proof.
   assert (L1 : loc S (init_vars (length (r_vars r)) ;;; iterM (fun s => outer_statement kinds (gfix fuel) (afix kinds (gfix fuel) fuel) s ctx_new) (check_order (r_stmts r)))).
   { apply loc_bind; [apply loc_init_vars|intros _]. apply loc_iterM_in. intros st Hin.
     apply (loc_outer_statement S kinds (gfix fuel) PG _ PA). apply Hst.
-    unfold check_order in Hin. apply in_app_or in Hin as [Hin|Hin]; [apply filter_In in Hin; tauto|exact Hin]. }
+    unfold check_order in Hin. apply in_app_or in Hin as [Hin|Hin]; [exact (proj1 (type_decl_order_In _ _ Hin))|exact Hin]. }
   unfold bind at 1. specialize (L1 empty_st (gspans_empty S)). unfold bind at 1 in L1.
   destruct (init_vars (length (r_vars r)) empty_st) as [[u0 s0]| | |]; try discriminate.
   - rewrite solve_order. unfold bind at 1.
